@@ -1,1 +1,171 @@
-pub fn selftest() -> Result<(), String> { Ok(()) }
+//! R-POLY: piecewise-polynomial B-spline oracle.
+//!
+//! For the knot span containing x (right-continuous; the last non-empty span, i.e. "from the
+//! left", at the right end point) the polynomial coefficients of B_{i,k} in the local variable
+//! u = x - t_j are built by running the Cox-de Boor recursion on coefficient vectors. Derivatives
+//! are polynomial derivatives, evaluation is Horner's rule, and a Horner evaluation on absolute
+//! values gives the tolerance scale. No derivative recursion and no right-end special case: a
+//! different algorithm from bsplev_single_f64 / bspldnev_single_f64.
+
+/// index j of the span [t_j, t_{j+1}) used for x; None if x is outside [t_0, t_last]
+pub fn span_for(t: &[f64], x: f64) -> Option<usize> {
+    let last = t.len() - 1;
+    if x < t[0] || x > t[last] {
+        return None;
+    }
+    if x == t[last] {
+        // from the left: last span of positive length
+        let mut j = last;
+        while j > 0 {
+            j -= 1;
+            if t[j] < t[j + 1] {
+                return Some(j);
+            }
+        }
+        return None;
+    }
+    // right-continuous: the span with t_j <= x < t_{j+1}
+    let mut j = 0;
+    for s in 0..last {
+        if t[s] <= x && x < t[s + 1] {
+            j = s;
+            break;
+        }
+    }
+    Some(j)
+}
+
+/// coefficients (in u = x - t_j, ascending powers) of B_{i,k} restricted to span j, together with
+/// the same recursion run on absolute values (a bound on the magnitude of the terms that were
+/// summed into each coefficient - cancellation happens already while the coefficients are built)
+pub fn basis_poly(t: &[f64], i: usize, k: usize, j: usize) -> (Vec<f64>, Vec<f64>) {
+    if k == 1 {
+        return if i == j { (vec![1.0], vec![1.0]) } else { (vec![0.0], vec![0.0]) };
+    }
+    let mut out = vec![0.0; k];
+    let mut mag = vec![0.0; k];
+    let d1 = t[i + k - 1] - t[i];
+    if d1 != 0.0 {
+        // (x - t_i)/d1 = ((t_j - t_i) + u)/d1
+        let (p, pm) = basis_poly(t, i, k - 1, j);
+        let c0 = (t[j] - t[i]) / d1;
+        let c1 = 1.0 / d1;
+        for (n, a) in p.iter().enumerate() {
+            out[n] += c0 * a;
+            out[n + 1] += c1 * a;
+        }
+        for (n, a) in pm.iter().enumerate() {
+            mag[n] += c0.abs() * a;
+            mag[n + 1] += c1.abs() * a;
+        }
+    }
+    let d2 = t[i + k] - t[i + 1];
+    if d2 != 0.0 {
+        // (t_{i+k} - x)/d2 = ((t_{i+k} - t_j) - u)/d2
+        let (p, pm) = basis_poly(t, i + 1, k - 1, j);
+        let c0 = (t[i + k] - t[j]) / d2;
+        let c1 = -1.0 / d2;
+        for (n, a) in p.iter().enumerate() {
+            out[n] += c0 * a;
+            out[n + 1] += c1 * a;
+        }
+        for (n, a) in pm.iter().enumerate() {
+            mag[n] += c0.abs() * a;
+            mag[n + 1] += c1.abs() * a;
+        }
+    }
+    (out, mag)
+}
+
+fn differentiate(p: &[f64], m: usize) -> Vec<f64> {
+    let mut q: Vec<f64> = p.to_vec();
+    for _ in 0..m {
+        if q.len() <= 1 {
+            return vec![0.0];
+        }
+        q = q.iter().enumerate().skip(1).map(|(n, a)| n as f64 * a).collect();
+    }
+    q
+}
+
+fn horner(p: &[f64], u: f64) -> (f64, f64) {
+    let mut v = 0.0;
+    let mut b = 0.0;
+    for a in p.iter().rev() {
+        v = v * u + a;
+        b = b * u.abs() + a.abs();
+    }
+    (v, b)
+}
+
+/// m-th derivative of B_{i,k} at x (from the right; from the left at the right end point) and the
+/// magnitude bound of its Horner evaluation. Outside [t_0, t_last] the value is 0.
+pub fn basis_deriv(t: &[f64], i: usize, k: usize, m: usize, x: f64) -> (f64, f64) {
+    if m >= k {
+        return (0.0, 0.0);
+    }
+    let j = match span_for(t, x) {
+        Some(j) => j,
+        None => return (0.0, 0.0),
+    };
+    // B_{i,k} lives on spans i..i+k-1 only
+    if j < i || j > i + k - 1 {
+        return (0.0, 0.0);
+    }
+    let (p, pm) = basis_poly(t, i, k, j);
+    let q = differentiate(&p, m);
+    let qm = differentiate(&pm, m);
+    let (v, _) = horner(&q, x - t[j]);
+    let (_, b) = horner(&qm, x - t[j]);
+    (v, b)
+}
+
+pub fn selftest() -> Result<(), String> {
+    // cubic (k=4) on [0,1,2,3,4] uniform: the cardinal B-spline
+    let t: Vec<f64> = vec![0.0, 1.0, 2.0, 3.0, 4.0];
+    let chk = |x: f64, m: usize, want: f64| -> Result<(), String> {
+        let (v, _) = basis_deriv(&t, 0, 4, m, x);
+        if (v - want).abs() > 1e-14 {
+            return Err(format!("polyspline selftest: B04^({})({}) = {} != {}", m, x, v, want));
+        }
+        Ok(())
+    };
+    chk(0.5, 0, 0.125 / 6.0)?;
+    chk(1.0, 0, 1.0 / 6.0)?;
+    chk(2.0, 0, 4.0 / 6.0)?;
+    chk(1.5, 0, 23.0 / 48.0)?;
+    chk(2.0, 1, 0.0)?;
+    chk(1.0, 1, 0.5)?;
+    chk(1.0, 2, 1.0)?;
+    chk(2.0, 2, -2.0)?;
+    chk(0.5, 3, 1.0)?;
+    chk(1.5, 3, -3.0)?;
+    chk(2.5, 4, 0.0)?;
+    // at the right end point the value is taken from the left
+    let (v, _) = basis_deriv(&t, 0, 4, 1, 4.0);
+    if (v - 0.0).abs() > 1e-14 {
+        return Err("polyspline selftest: left derivative at the end".into());
+    }
+    let (v, _) = basis_deriv(&t, 0, 4, 3, 4.0);
+    if (v + 1.0).abs() > 1e-14 {
+        return Err(format!("polyspline selftest: left third derivative at the end {}", v));
+    }
+    // clamped knots: partition of unity at many points incl. knots and the right end
+    let t2: Vec<f64> = vec![0.0, 0.0, 0.0, 0.0, 0.3, 1.0, 1.0, 2.5, 4.0, 4.0, 4.0, 4.0];
+    let n = t2.len() - 4;
+    for x in [0.0, 0.1, 0.3, 0.7, 1.0, 1.00001, 2.5, 3.9999, 4.0] {
+        let s: f64 = (0..n).map(|i| basis_deriv(&t2, i, 4, 0, x).0).sum();
+        if (s - 1.0).abs() > 1e-13 {
+            return Err(format!("polyspline selftest: partition of unity at {} = {}", x, s));
+        }
+        let d: f64 = (0..n).map(|i| basis_deriv(&t2, i, 4, 1, x).0).sum();
+        if d.abs() > 1e-11 {
+            return Err(format!("polyspline selftest: sum of derivatives at {} = {}", x, d));
+        }
+    }
+    // last basis function is 1 at the right end, first is 1 at the left end
+    if (basis_deriv(&t2, n - 1, 4, 0, 4.0).0 - 1.0).abs() > 1e-14 || (basis_deriv(&t2, 0, 4, 0, 0.0).0 - 1.0).abs() > 1e-14 {
+        return Err("polyspline selftest: end values".into());
+    }
+    Ok(())
+}
